@@ -727,3 +727,109 @@ Proof.
     - injection Hr as <-. reflexivity. }
   destruct (loaded e3) as [lc lu ln]. cbn [l_conf] in Hl. subst lc. reflexivity.
 Qed.
+
+(* ---------- a whole start/stop cycle on OpenWrt puts the owner's uci settings back ---------- *)
+Lemma neq_ipaddr_dhcpopt : beq_bytes k_ipaddr k_dhcpopt = false. Proof. vm_compute. reflexivity. Qed.
+Lemma neq_ipaddr_server : beq_bytes k_ipaddr k_server = false. Proof. vm_compute. reflexivity. Qed.
+Lemma neq_ipaddr_port : beq_bytes k_ipaddr k_port = false. Proof. vm_compute. reflexivity. Qed.
+
+(* strings.Join(strings.Split(s, " "), " ") == s *)
+Lemma split_sp_go_nonnil s cur : split_sp_go s cur <> [].
+Proof. revert cur. induction s as [|c r IH]; intros cur; cbn [split_sp_go]; [discriminate|]. destruct (c =? 32); [discriminate|apply IH]. Qed.
+Lemma join_split_go s : forall cur, join_sp (split_sp_go s cur) = cur ++ s.
+Proof.
+  induction s as [|c r IH]; intros cur; cbn [split_sp_go].
+  - cbn [join_sp]. symmetry. apply app_nil_r.
+  - destruct (c =? 32) eqn:E.
+    + assert (c = 32) by lia. subst c. specialize (IH []). cbn [app] in IH.
+      destruct (split_sp_go r []) as [|y ys] eqn:Es; [exfalso; exact (split_sp_go_nonnil _ _ Es)|].
+      cbn [join_sp]. cbn [join_sp] in IH. rewrite IH. reflexivity.
+    + rewrite IH, <- app_assoc. reflexivity.
+Qed.
+Lemma join_split s : join_sp (split_sp s) = s.
+Proof. unfold split_sp. apply join_split_go. Qed.
+
+Definition olist (o : option (list bytes)) : list bytes := match o with Some l => l | None => [] end.
+
+Lemma fold_add_list_server fs : forall e,
+  let e' := fold_left (fun e f => uci_add_list e k_server f) fs e in
+  uci_c e' = uci_c e /\ nv e' = nv e /\ loaded e' = loaded e /\
+  (forall k, beq_bytes k k_server = false -> sget k (uci_s e') = sget k (uci_s e)) /\
+  (fs <> [] -> sget k_server (uci_s e') = Some (olist (sget k_server (uci_s e)) ++ fs)).
+Proof.
+  induction fs as [|f fs IH]; intros e; cbn [fold_left].
+  - repeat split; try reflexivity. intros H. contradiction.
+  - specialize (IH (uci_add_list e k_server f)). cbn zeta in IH. destruct IH as (H1 & H2 & H3 & H4 & H5).
+    repeat split; try assumption.
+    + intros k Hk. rewrite (H4 k Hk). unfold uci_add_list. cbn [uci_s set_uci_s]. apply sget_sset_other. exact Hk.
+    + intros _. destruct fs as [|g gs].
+      * cbn [fold_left]. unfold uci_add_list. cbn [uci_s set_uci_s]. rewrite sget_sset_same.
+        destruct (sget k_server (uci_s e)); reflexivity.
+      * rewrite H5 by discriminate. unfold uci_add_list at 1. cbn [uci_s set_uci_s]. rewrite sget_sset_same.
+        destruct (sget k_server (uci_s e)); cbn [olist]; [rewrite <- app_assoc|]; reflexivity.
+Qed.
+
+Lemma has_prefix_refl_app x y : has_prefix x (x ++ y) = true.
+Proof. induction x as [|c x IH]; cbn [has_prefix app]; [destruct y; reflexivity|]. rewrite Z.eqb_refl. exact IH. Qed.
+Lemma contains_app_r a s x : contains s x = true -> contains (a ++ s) x = true.
+Proof.
+  intros H. induction a as [|c a IH]; [exact H|]. cbn [app contains]. rewrite IH. apply Bool.orb_true_r.
+Qed.
+Lemma contains_prefix x y : contains (x ++ y) x = true.
+Proof. destruct (x ++ y) eqn:E; cbn [contains]; rewrite <- E, has_prefix_refl_app; reflexivity. Qed.
+Lemma in_join_contains x l : In x l -> contains (join_sp l) x = true.
+Proof.
+  induction l as [|y r IH]; [intros []|]. intros [->|H].
+  - destruct r as [|z r']; cbn [join_sp].
+    + rewrite <- (app_nil_r x) at 1. apply contains_prefix.
+    + apply contains_prefix.
+  - destruct r as [|z r']; [destruct H|]. cbn [join_sp]. apply contains_app_r. apply (contains_app_r [32]). apply IH. exact H.
+Qed.
+
+Lemma filter_neq_snoc x l : ~ In x l -> filter (fun y => negb (beq_bytes y x)) (l ++ [x]) = l.
+Proof.
+  intros H. rewrite filter_app. cbn [filter]. rewrite beq_bytes_refl. cbn [negb]. rewrite app_nil_r.
+  induction l as [|y r IH]; [reflexivity|]. cbn [filter].
+  destruct (beq_bytes y x) eqn:E; [apply beq_bytes_eq in E; subst y; exfalso; apply H; left; reflexivity|].
+  cbn [negb]. f_equal. apply IH. intros Hin. apply H. right. exact Hin.
+Qed.
+
+Definition fport (o : option (list bytes)) : bytes :=
+  match o with Some (x :: r) => trim_space (join_sp (x :: r)) | _ => t_53 end.
+Definition fjoin (o : option (list bytes)) : bytes := trim_space (joined o).
+
+Lemma ow_phase1_effect r e r1 e1 :
+  uci_s e = uci_c e -> ow_phase1 r e = (r1, e1) ->
+  uci_s e1 = uci_c e1 /\ conf e1 = conf e /\ r_addedopt r1 = r_addedopt r /\ r_cache r1 = r_cache r /\
+  sget k_dhcpopt (uci_s e1) = sget k_dhcpopt (uci_s e) /\ sget k_ipaddr (uci_s e1) = sget k_ipaddr (uci_s e) /\
+  (r_cache r = true -> sget k_server (uci_s e1) = sget k_server (uci_s e) /\ r_savedfw r1 = r_savedfw r /\
+                       fport (sget k_port (uci_s e1)) = fport (sget k_port (uci_s e))) /\
+  (r_cache r = false -> sget k_port (uci_s e1) = sget k_port (uci_s e) /\
+     ((r_savedfw r1 = [] /\ fjoin (sget k_server (uci_s e1)) = fjoin (sget k_server (uci_s e))) \/
+      (r_savedfw r1 <> [] /\ sget k_server (uci_s e1) = None /\
+       trim_space (r_savedfw r1) = fjoin (sget k_server (uci_s e))))).
+Proof.
+  intros Hsync H. unfold ow_phase1 in H. destruct (r_cache r) eqn:Eca.
+  - unfold uci_get in H. destruct (sget k_port (uci_s e)) as [[|x xs]|] eqn:Eg.
+    + injection H as <- <-. ow_proj. repeat split; try assumption; try reflexivity; try discriminate. rewrite Eg. reflexivity.
+    + destruct (beq_bytes (trim_space (join_sp (x :: xs))) t_53) eqn:Eb; injection H as <- <-; ow_proj.
+      * repeat split; try reflexivity; try discriminate; try assumption;
+          try (apply sget_sdel_other; first [exact neq_dhcpopt_port|exact neq_ipaddr_port|exact neq_server_port]).
+        rewrite sget_sdel_same. unfold fport. apply beq_bytes_eq in Eb. symmetry. exact Eb.
+      * repeat split; try assumption; try reflexivity; try discriminate. rewrite Eg. reflexivity.
+    + injection H as <- <-. ow_proj. repeat split; try assumption; try reflexivity; try discriminate. rewrite Eg. reflexivity.
+  - unfold uci_get in H. destruct (sget k_server (uci_s e)) as [[|x xs]|] eqn:Eg.
+    + injection H as <- <-. ow_proj. repeat split; try assumption; try reflexivity; try discriminate.
+      left. split; [reflexivity|]. rewrite Eg. reflexivity.
+    + injection H as <- <-. ow_proj.
+      repeat split; try reflexivity; try discriminate; try assumption;
+        try (apply sget_sdel_other; first [exact neq_dhcpopt_server|exact neq_ipaddr_server|exact neq_port_server]).
+      change (fjoin (Some (x :: xs))) with (trim_space (join_sp (x :: xs))).
+      destruct (trim_space (join_sp (x :: xs))) as [|b bs] eqn:Et.
+      * left. split; [exact Et|]. rewrite sget_sdel_same. reflexivity.
+      * right. split; [change (trim_space (join_sp (x :: xs)) <> []); rewrite Et; discriminate|].
+        split; [apply sget_sdel_same|].
+        change (trim_space (trim_space (join_sp (x :: xs))) = b :: bs). rewrite trim_space_idem. exact Et.
+    + injection H as <- <-. ow_proj. repeat split; try assumption; try reflexivity; try discriminate.
+      left. split; [reflexivity|]. rewrite Eg. reflexivity.
+Qed.
